@@ -1,9 +1,1210 @@
 package c13
 
-import "github.com/sourcenetwork/defradb/verifharness/hx"
+import (
+	"encoding/json"
+	"fmt"
+	"math"
+	"sort"
+	"strconv"
+	"strings"
+	"sync"
+	"time"
 
-type DocCase struct{}
+	"github.com/sourcenetwork/immutable"
+	"github.com/valyala/fastjson"
+	"pgregory.net/rapid"
 
-type docOutcome struct{ failures []*hx.Failure }
+	"github.com/sourcenetwork/defradb/client"
+	"github.com/sourcenetwork/defradb/internal/db"
+	"github.com/sourcenetwork/defradb/verifharness/hx"
+)
 
-func runDoc(c DocCase) docOutcome { return docOutcome{} }
+// ---------------------------------------------------------------------------
+// Schema of the document domain
+// ---------------------------------------------------------------------------
+
+type docField struct {
+	Name string
+	Kind string // str int pint f64 f32 bool time blob json docid | a<k> (non-nillable elements) | an<k> (nillable elements)
+	GQL  string
+}
+
+var docFields = []docField{
+	{"s", "str", "String"}, {"i", "int", "Int"}, {"f", "f64", "Float"}, {"g", "f32", "Float32"}, {"b", "bool", "Boolean"},
+	{"t", "time", "DateTime"}, {"bl", "blob", "Blob"}, {"j", "json", "JSON"},
+	{"ai", "aint", "[Int!]"}, {"ani", "anint", "[Int]"}, {"as", "astr", "[String!]"}, {"ans", "anstr", "[String]"},
+	{"ab", "abool", "[Boolean!]"}, {"anb", "anbool", "[Boolean]"}, {"af", "af64", "[Float!]"}, {"anf", "anf64", "[Float]"},
+	{"pn", "int", "Int @crdt(type: pncounter)"}, {"pc", "pint", "Int @crdt(type: pcounter)"}, {"pf", "f64", "Float @crdt(type: pncounter)"},
+	{"boss_id", "docid", ""},
+}
+
+func docSDL(typeName string, order []int, extra string) string {
+	var sb strings.Builder
+	fmt.Fprintf(&sb, "type %s {\n", typeName)
+	for _, i := range order {
+		f := docFields[i]
+		if f.Kind == "docid" {
+			fmt.Fprintf(&sb, "  boss: %s @primary\n", typeName)
+			continue
+		}
+		fmt.Fprintf(&sb, "  %s: %s\n", f.Name, f.GQL)
+	}
+	sb.WriteString(extra)
+	sb.WriteString("}\n")
+	return sb.String()
+}
+
+// ---------------------------------------------------------------------------
+// Values
+// ---------------------------------------------------------------------------
+
+// V is one field value, independent of the route that writes it.
+type V struct {
+	Null bool    `json:"null,omitempty"`
+	S    string  `json:"s,omitempty"` // str, time (RFC 3339 text), blob (hex), json (JSON text), docid
+	I    int64   `json:"i,omitempty"`
+	F    float64 `json:"f,omitempty"` // f64; f32 holds a value exactly representable as float32
+	B    bool    `json:"b,omitempty"`
+	A    []V     `json:"a,omitempty"`
+	Arr  bool    `json:"arr,omitempty"` // distinguishes the empty array from a scalar
+}
+
+func elemKind(kind string) (elem string, nillable bool, isArr bool) {
+	switch {
+	case strings.HasPrefix(kind, "an"):
+		return kind[2:], true, true
+	case strings.HasPrefix(kind, "a"):
+		return kind[1:], false, true
+	}
+	return kind, false, false
+}
+
+// jsonText renders v as the JSON literal used on the JSON route (and, for scalars, the GraphQL route).
+func jsonText(kind string, v V) string {
+	if v.Null {
+		return "null"
+	}
+	if ek, _, isArr := elemKind(kind); isArr {
+		parts := make([]string, len(v.A))
+		for i, e := range v.A {
+			parts[i] = jsonText(ek, e)
+		}
+		return "[" + strings.Join(parts, ",") + "]"
+	}
+	switch kind {
+	case "str", "time", "blob", "docid":
+		b, _ := json.Marshal(v.S)
+		return string(b)
+	case "int", "pint":
+		return strconv.FormatInt(v.I, 10)
+	case "f64", "f32":
+		return strconv.FormatFloat(v.F, 'g', -1, 64)
+	case "bool":
+		return strconv.FormatBool(v.B)
+	case "json":
+		return v.S
+	}
+	hx.Harnessf("jsonText: kind %s", kind)
+	return ""
+}
+
+// gqlJSONLiteral renders a decoded JSON value as a GraphQL input literal (object keys unquoted).
+func gqlJSONLiteral(x any) string {
+	switch t := x.(type) {
+	case nil:
+		return "null"
+	case map[string]any:
+		keys := make([]string, 0, len(t))
+		for k := range t {
+			keys = append(keys, k)
+		}
+		sort.Strings(keys)
+		parts := make([]string, len(keys))
+		for i, k := range keys {
+			parts[i] = k + ": " + gqlJSONLiteral(t[k])
+		}
+		return "{" + strings.Join(parts, ", ") + "}"
+	case []any:
+		parts := make([]string, len(t))
+		for i, e := range t {
+			parts[i] = gqlJSONLiteral(e)
+		}
+		return "[" + strings.Join(parts, ", ") + "]"
+	case json.Number:
+		return t.String()
+	default:
+		b, _ := json.Marshal(t)
+		return string(b)
+	}
+}
+
+func gqlText(kind string, v V) string {
+	if v.Null {
+		return "null"
+	}
+	if ek, _, isArr := elemKind(kind); isArr {
+		parts := make([]string, len(v.A))
+		for i, e := range v.A {
+			parts[i] = gqlText(ek, e)
+		}
+		return "[" + strings.Join(parts, ", ") + "]"
+	}
+	if kind == "json" {
+		return gqlJSONLiteral(hx.ParseJSON(v.S))
+	}
+	return jsonText(kind, v)
+}
+
+// goValue renders v for the NewDocFromMap route; typing selects between Go types the document
+// layer documents as accepted for the kind.
+func goValue(kind string, v V, typing int) any {
+	if v.Null {
+		return nil
+	}
+	if ek, nillable, isArr := elemKind(kind); isArr {
+		if typing%2 == 1 {
+			switch ek {
+			case "int":
+				if nillable {
+					out := make([]immutable.Option[int64], len(v.A))
+					for i, e := range v.A {
+						if !e.Null {
+							out[i] = immutable.Some(e.I)
+						}
+					}
+					return out
+				}
+				out := make([]int64, len(v.A))
+				for i, e := range v.A {
+					out[i] = e.I
+				}
+				return out
+			case "str":
+				if nillable {
+					out := make([]immutable.Option[string], len(v.A))
+					for i, e := range v.A {
+						if !e.Null {
+							out[i] = immutable.Some(e.S)
+						}
+					}
+					return out
+				}
+				out := make([]string, len(v.A))
+				for i, e := range v.A {
+					out[i] = e.S
+				}
+				return out
+			case "bool":
+				if nillable {
+					out := make([]immutable.Option[bool], len(v.A))
+					for i, e := range v.A {
+						if !e.Null {
+							out[i] = immutable.Some(e.B)
+						}
+					}
+					return out
+				}
+				out := make([]bool, len(v.A))
+				for i, e := range v.A {
+					out[i] = e.B
+				}
+				return out
+			case "f64":
+				if nillable {
+					out := make([]immutable.Option[float64], len(v.A))
+					for i, e := range v.A {
+						if !e.Null {
+							out[i] = immutable.Some(e.F)
+						}
+					}
+					return out
+				}
+				out := make([]float64, len(v.A))
+				for i, e := range v.A {
+					out[i] = e.F
+				}
+				return out
+			}
+		}
+		out := make([]any, len(v.A))
+		for i, e := range v.A {
+			out[i] = goValue(ek, e, typing/2)
+		}
+		return out
+	}
+	switch kind {
+	case "str", "time", "blob", "docid":
+		return v.S
+	case "int", "pint":
+		switch typing % 3 {
+		case 1:
+			if v.I >= math.MinInt32 && v.I <= math.MaxInt32 {
+				return int(v.I)
+			}
+		case 2:
+			if v.I > -(1<<53) && v.I < 1<<53 {
+				return float64(v.I)
+			}
+		}
+		return v.I
+	case "f64":
+		if typing%2 == 1 && v.F == math.Trunc(v.F) && math.Abs(v.F) < 1<<53 {
+			return int64(v.F)
+		}
+		return v.F
+	case "f32":
+		if typing%2 == 1 {
+			return v.F // float64 holding the exact float32 value
+		}
+		return float32(v.F)
+	case "bool":
+		return v.B
+	case "json":
+		var x any
+		if err := json.Unmarshal([]byte(v.S), &x); err != nil {
+			hx.Harnessf("bad JSON value %q: %v", v.S, err)
+		}
+		return x
+	}
+	hx.Harnessf("goValue: kind %s", kind)
+	return nil
+}
+
+// gqlExpressible: GraphQL Int literals are 32-bit.
+func gqlExpressible(kind string, v V) bool {
+	if v.Null {
+		return true
+	}
+	if ek, _, isArr := elemKind(kind); isArr {
+		for _, e := range v.A {
+			if !gqlExpressible(ek, e) {
+				return false
+			}
+		}
+		return true
+	}
+	if kind == "int" || kind == "pint" {
+		return v.I >= math.MinInt32 && v.I <= math.MaxInt32
+	}
+	return true
+}
+
+var (
+	strPool   = []string{"", "a", "b", "ab", "é", "日本", "a\"b", "a\\b", "line\nbreak", "tab\there", " ", "null", "0", "<&>", strings.Repeat("x", 300)}
+	intPool   = []int64{0, 1, -1, 2, 7, 100, -100, math.MaxInt32, math.MinInt32, 1 << 31, -(1 << 31) - 1, 1<<53 - 1, 1 << 53, 1<<53 + 1, math.MaxInt64, math.MinInt64}
+	f64Pool   = []float64{0, 1, -1, 1.5, 0.1, -0.1, 0.30000000000000004, 1e21, 1e-7, 123456.789, 1e6, 999999, math.MaxFloat64, math.SmallestNonzeroFloat64, 1.0 / 3, 9007199254740993, 2.5e-300}
+	f32Pool   = []float32{0, 1, -1, 1.5, 0.1, 0.25, 3.4028235e38, 1e-45, 16777216, 16777217, 1.0 / 3}
+	timePool  = []string{"2020-01-02T03:04:05Z", "2020-01-02T03:04:05.123456789Z", "2020-01-02T03:04:05.5Z", "2020-01-02T03:04:05.500Z", "2020-01-02T03:04:05+02:00", "2020-01-02T01:04:05-07:00", "1955-11-05T06:15:00Z", "9999-12-31T23:59:59.999999999Z", "0001-01-01T00:00:01Z", "1970-01-01T00:00:00Z", "2020-01-02T03:04:05+00:00"}
+	blobPool  = []string{"00", "ff", "00FF", "00ff", "deadbeef", "0000", "ab"}
+	jsonPool  = []string{`1`, `0`, `1.5`, `"x"`, `""`, `true`, `false`, `{}`, `[]`, `{"a":1}`, `{"b":1,"a":2}`, `{"a":2,"b":1}`, `{"a":{"b":[1,2,{"c":null}]}}`, `[1,"a",null]`, `[[],{}]`, `{"k":"v","n":null}`, `[0.5,-3,100000]`}
+	docidPool = []string{"bae-4de24838-2abe-536d-8b1d-14b9390d3035", "bae-2c858ec3-8dc6-5ab0-ae18-24970ed8bf24", "bae-27aad000-bdde-59d1-9b45-8d77a67948a4"}
+)
+
+func genScalar(t *rapid.T, kind string) V {
+	switch kind {
+	case "str":
+		if rapid.IntRange(0, 3).Draw(t, "strmode") == 0 {
+			return V{S: rapid.StringOfN(rapid.RuneFrom([]rune("abcxyz 0189_-/%éß日")), 0, 12, -1).Draw(t, "str")}
+		}
+		return V{S: rapid.SampledFrom(strPool).Draw(t, "strp")}
+	case "int":
+		switch rapid.IntRange(0, 5).Draw(t, "intmode") {
+		case 0:
+			return V{I: rapid.SampledFrom(intPool).Draw(t, "intp")}
+		case 1:
+			return V{I: rapid.Int64().Draw(t, "int64")}
+		}
+		return V{I: int64(rapid.Int32().Draw(t, "int32"))}
+	case "pint":
+		if rapid.IntRange(0, 7).Draw(t, "pintmode") == 0 {
+			return V{I: rapid.Int64Range(1, math.MaxInt64).Draw(t, "pint64")}
+		}
+		return V{I: int64(rapid.Int32Range(0, math.MaxInt32).Draw(t, "pint32"))}
+	case "f64":
+		var f float64
+		if rapid.Bool().Draw(t, "f64mode") {
+			f = rapid.SampledFrom(f64Pool).Draw(t, "f64p")
+		} else {
+			f = rapid.Float64().Draw(t, "f64")
+		}
+		if math.IsNaN(f) || math.IsInf(f, 0) || f == 0 {
+			f = 0 // NaN/Inf are not JSON; -0 is excluded (see assumptions)
+		}
+		return V{F: f}
+	case "f32":
+		var f float32
+		if rapid.Bool().Draw(t, "f32mode") {
+			f = rapid.SampledFrom(f32Pool).Draw(t, "f32p")
+		} else {
+			f = rapid.Float32().Draw(t, "f32")
+		}
+		if f != f || math.IsInf(float64(f), 0) || f == 0 {
+			f = 0
+		}
+		return V{F: float64(f)}
+	case "bool":
+		return V{B: rapid.Bool().Draw(t, "bool")}
+	case "time":
+		return V{S: rapid.SampledFrom(timePool).Draw(t, "time")}
+	case "blob":
+		if rapid.IntRange(0, 2).Draw(t, "blobmode") == 0 {
+			bs := rapid.SliceOfN(rapid.Byte(), 1, 6).Draw(t, "blob")
+			return V{S: fmt.Sprintf("%x", bs)}
+		}
+		return V{S: rapid.SampledFrom(blobPool).Draw(t, "blobp")}
+	case "json":
+		return V{S: rapid.SampledFrom(jsonPool).Draw(t, "json")}
+	case "docid":
+		return V{S: rapid.SampledFrom(docidPool).Draw(t, "docid")}
+	}
+	hx.Harnessf("genScalar: kind %s", kind)
+	return V{}
+}
+
+func genValue(t *rapid.T, kind string) V {
+	ek, nillable, isArr := elemKind(kind)
+	if !isArr {
+		return genScalar(t, kind)
+	}
+	n := rapid.IntRange(0, 4).Draw(t, "alen")
+	v := V{Arr: true}
+	for i := 0; i < n; i++ {
+		if nillable && rapid.IntRange(0, 3).Draw(t, "enull") == 0 {
+			v.A = append(v.A, V{Null: true})
+			continue
+		}
+		v.A = append(v.A, genScalar(t, ek))
+	}
+	return v
+}
+
+// mutate returns a value of the same kind that denotes different content, and the name of the change.
+func mutate(kind string, v V, how int) (V, string) {
+	if ek, nillable, isArr := elemKind(kind); isArr {
+		w := V{Arr: true, A: append([]V{}, v.A...)}
+		n := len(w.A)
+		mode := how % 4
+		if n == 0 {
+			mode = 1
+		}
+		switch mode {
+		case 0: // change one element's value
+			k := (how / 4) % n
+			if w.A[k].Null {
+				w.A[k] = zeroOf(ek)
+				return w, "element-null-to-value"
+			}
+			w.A[k], _ = mutate(ek, w.A[k], how/16)
+			return w, "element-value"
+		case 1:
+			w.A = append(w.A, zeroOf(ek))
+			return w, "append"
+		case 2:
+			w.A = w.A[:n-1]
+			return w, "remove-last"
+		default:
+			k := (how / 4) % n
+			if nillable && !w.A[k].Null {
+				w.A[k] = V{Null: true}
+				return w, "element-value-to-null"
+			}
+			if n >= 2 && jsonText(ek, w.A[0]) != jsonText(ek, w.A[n-1]) {
+				w.A[0], w.A[n-1] = w.A[n-1], w.A[0]
+				return w, "swap-elements"
+			}
+			w.A = append(w.A, zeroOf(ek))
+			return w, "append"
+		}
+	}
+	w := v
+	switch kind {
+	case "str":
+		w.S = v.S + "x"
+		return w, "value"
+	case "int", "pint":
+		if v.I == math.MaxInt64 {
+			w.I = v.I - 1
+		} else {
+			w.I = v.I + 1
+		}
+		return w, "value"
+	case "f64":
+		if how%2 == 0 {
+			w.F = math.Nextafter(v.F, math.Inf(1))
+			if math.IsInf(w.F, 0) {
+				w.F = math.Nextafter(v.F, 0)
+			}
+			return w, "value-1ulp"
+		}
+		w.F = v.F + 1
+		if w.F == v.F {
+			w.F = v.F / 2
+		}
+		if w.F == 0 {
+			w.F = 1
+		}
+		return w, "value"
+	case "f32":
+		f := math.Nextafter32(float32(v.F), float32(math.Inf(1)))
+		if math.IsInf(float64(f), 0) {
+			f = math.Nextafter32(float32(v.F), 0)
+		}
+		w.F = float64(f)
+		return w, "value-1ulp"
+	case "bool":
+		w.B = !v.B
+		return w, "value"
+	case "time":
+		// a different instant: another pool entry that does not denote the same instant
+		for k := 0; k < len(timePool); k++ {
+			cand := timePool[(how+k)%len(timePool)]
+			if !sameInstant(cand, v.S) {
+				w.S = cand
+				return w, "value"
+			}
+		}
+	case "blob":
+		w.S = v.S + "00"
+		return w, "value"
+	case "json":
+		w.S = "[" + v.S + "]"
+		return w, "value"
+	case "docid":
+		for k := 0; k < len(docidPool); k++ {
+			if cand := docidPool[(how+k)%len(docidPool)]; cand != v.S {
+				w.S = cand
+				return w, "value"
+			}
+		}
+	}
+	hx.Harnessf("mutate: kind %s", kind)
+	return w, ""
+}
+
+func zeroOf(kind string) V {
+	switch kind {
+	case "str":
+		return V{S: "z"}
+	case "int", "pint":
+		return V{I: 4}
+	case "f64", "f32":
+		return V{F: 4.5}
+	case "bool":
+		return V{B: true}
+	}
+	hx.Harnessf("zeroOf: kind %s", kind)
+	return V{}
+}
+
+func parseRFC3339(s string) (time.Time, error) { return time.Parse(time.RFC3339, s) }
+
+func sameInstant(a, b string) bool {
+	ta, err1 := parseRFC3339(a)
+	tb, err2 := parseRFC3339(b)
+	return err1 == nil && err2 == nil && ta.Equal(tb)
+}
+
+// jsonMisparses reports whether the JSON parser used by NewDocFromJSON (valyala/fastjson) turns the
+// shortest decimal text of f into a different float64 than strconv.ParseFloat does. Used only by
+// diagnosers and by the generator switch that avoids the known finding.
+func jsonMisparses(f float64) bool {
+	txt := strconv.FormatFloat(f, 'g', -1, 64)
+	v, err := fastjson.Parse(txt)
+	if err != nil {
+		return false
+	}
+	g, err := v.Float64()
+	return err == nil && g != f
+}
+
+// inexactFloatFields lists the fields of the assignment that hold a float the JSON route misparses.
+func inexactFloatFields(vals []V) map[int]bool {
+	out := map[int]bool{}
+	for i, f := range docFields {
+		ek, _, isArr := elemKind(f.Kind)
+		if ek != "f64" && ek != "f32" {
+			continue
+		}
+		v := vals[i]
+		if v.Null {
+			continue
+		}
+		if isArr {
+			for _, e := range v.A {
+				if !e.Null && jsonMisparses(e.F) {
+					out[i] = true
+				}
+			}
+		} else if jsonMisparses(v.F) {
+			out[i] = true
+		}
+	}
+	return out
+}
+
+const (
+	sigFloatID     = "C13/doc/docid-differs/json-route-parses-float-text-1ulp-off"
+	sigFloatCommit = "C13/doc/genesis-cid-differs/json-route-parses-float-text-1ulp-off"
+	sigNillableArr = "C13/doc/docid-ignores-change/array-of-nillable-elements/length-preserving-change"
+)
+
+// ---------------------------------------------------------------------------
+// Case
+// ---------------------------------------------------------------------------
+
+// Route is one way of building the document.
+type Route struct {
+	Kind     string `json:"kind"`  // json | map | gqlA | gqlB | colB
+	Order    []int  `json:"order"` // permutation of the field indexes (key order of the input)
+	Explicit []bool `json:"explicit"` // per field: a null value is written as null (true) or the key is omitted
+	Typing   int    `json:"typing,omitempty"`
+}
+
+// DocCase is one value assignment and the routes to compare.
+type DocCase struct {
+	Vals   []V     `json:"vals"`
+	Alt    []V     `json:"alt"` // non-null alternative per field (used when the mutated field is null)
+	Routes []Route `json:"routes"`
+	Mut    int     `json:"mut"`
+	MutHow int     `json:"mut_how"`
+	// AvoidKnown: generator switches that avoid the triggers of known findings were applied
+	AvoidKnown bool `json:"avoid_known,omitempty"`
+}
+
+func drawDocCase(t *rapid.T) DocCase {
+	var c DocCase
+	nullPct := rapid.SampledFrom([]int{10, 35, 35, 60, 90}).Draw(t, "nullpct")
+	for _, f := range docFields {
+		v := genValue(t, f.Kind)
+		alt := genValue(t, f.Kind)
+		if rapid.IntRange(0, 99).Draw(t, "isnull") < nullPct {
+			v = V{Null: true}
+		}
+		c.Vals = append(c.Vals, v)
+		c.Alt = append(c.Alt, alt)
+	}
+	ident := make([]int, len(docFields))
+	for i := range ident {
+		ident[i] = i
+	}
+	for _, k := range []string{"json", "json", "map", "gqlA", "gqlB", "colB"} {
+		r := Route{Kind: k, Order: rapid.Permutation(ident).Draw(t, "order"), Typing: rapid.IntRange(0, 11).Draw(t, "typing")}
+		r.Explicit = make([]bool, len(docFields))
+		mode := rapid.IntRange(0, 3).Draw(t, "nullmode")
+		for i := range r.Explicit {
+			switch mode {
+			case 0:
+				r.Explicit[i] = false
+			case 1:
+				r.Explicit[i] = true
+			default:
+				r.Explicit[i] = rapid.Bool().Draw(t, "explicit")
+			}
+		}
+		c.Routes = append(c.Routes, r)
+	}
+	c.Mut = rapid.IntRange(0, len(docFields)-1).Draw(t, "mut")
+	c.MutHow = rapid.IntRange(0, 255).Draw(t, "muthow")
+	if rapid.Bool().Draw(t, "avoid-known") {
+		// search past known findings: half of the cases avoid their triggers by construction
+		c.AvoidKnown = true
+		if rec.IsKnown(sigFloatID) || rec.IsKnown(sigFloatCommit) {
+			fix := func(v *V) {
+				if !v.Null && jsonMisparses(v.F) {
+					v.F = 0.5
+				}
+			}
+			for i, f := range docFields {
+				if ek, _, _ := elemKind(f.Kind); ek == "f64" || ek == "f32" {
+					for _, vals := range [][]V{c.Vals, c.Alt} {
+						fix(&vals[i])
+						for k := range vals[i].A {
+							fix(&vals[i].A[k])
+						}
+					}
+				}
+			}
+		}
+		if rec.IsKnown(sigHeadsPrefix) {
+			// the first two fields by name (ids 1 and 2) are the ones whose head scan picks up ids 10..19 / 20
+			for i, f := range docFields {
+				if f.Name == "ab" || f.Name == "af" {
+					c.Vals[i] = V{Null: true}
+					for r := range c.Routes {
+						c.Routes[r].Explicit[i] = false
+					}
+					if c.Mut == i {
+						c.Mut = 0
+					}
+				}
+			}
+		}
+		if rec.IsKnown(sigNillableArr) {
+			if _, nillable, isArr := elemKind(docFields[c.Mut].Kind); isArr && nillable {
+				c.Mut = (c.Mut + 7) % len(docFields) // ani->pn, ans->pf, anb->i(wraps), anf->s ... any non-nillable-array field
+				if _, n2, a2 := elemKind(docFields[c.Mut].Kind); a2 && n2 {
+					c.Mut = 0
+				}
+			}
+		}
+	}
+	return c
+}
+
+// ---------------------------------------------------------------------------
+// Nodes of the document domain (booted once per process)
+// ---------------------------------------------------------------------------
+
+type docEnvT struct {
+	a, b, c       *hx.Node
+	defA, defA2   client.CollectionDefinition
+	defB, defC    client.CollectionDefinition
+	colB          client.Collection
+	rootsDisagree string
+}
+
+var (
+	docEnvOnce sync.Once
+	docEnv     *docEnvT
+)
+
+func getDocEnv() *docEnvT {
+	docEnvOnce.Do(func() {
+		e := &docEnvT{}
+		ident := make([]int, len(docFields))
+		rev := make([]int, len(docFields))
+		for i := range ident {
+			ident[i] = i
+			rev[i] = len(docFields) - 1 - i
+		}
+		add := func(n *hx.Node, sdl string) {
+			if _, err := n.DB.AddSchema(n.Ctx, sdl); err != nil {
+				hx.Harnessf("document schema rejected: %v\n%s", err, sdl)
+			}
+		}
+		def := func(n *hx.Node, name string) client.CollectionDefinition {
+			col, err := n.DB.GetCollectionByName(n.Ctx, name)
+			if err != nil {
+				hx.Harnessf("GetCollectionByName(%s): %v", name, err)
+			}
+			return col.Definition()
+		}
+		e.a = hx.MustMemNode()
+		add(e.a, docSDL("Users", ident, "")+docSDL("Users2", ident, ""))
+		e.b = hx.MustMemNode()
+		// same definitions, other type order, other field order, two calls
+		add(e.b, docSDL("Users2", rev, ""))
+		add(e.b, docSDL("Users", rev, ""))
+		e.c = hx.MustMemNode()
+		add(e.c, docSDL("Users", ident, "  zz: Int\n"))
+		e.defA, e.defA2 = def(e.a, "Users"), def(e.a, "Users2")
+		e.defB, e.defC = def(e.b, "Users"), def(e.c, "Users")
+		colB, err := e.b.DB.GetCollectionByName(e.b.Ctx, "Users")
+		if err != nil {
+			hx.Harnessf("GetCollectionByName: %v", err)
+		}
+		e.colB = colB
+		if e.defA.Schema.Root != e.defB.Schema.Root || e.defA.Version.VersionID != e.defB.Version.VersionID {
+			e.rootsDisagree = fmt.Sprintf("node A: root %s version %s; node B: root %s version %s", e.defA.Schema.Root, e.defA.Version.VersionID, e.defB.Schema.Root, e.defB.Version.VersionID)
+		}
+		docEnv = e
+	})
+	return docEnv
+}
+
+func closeDocEnv() {
+	if docEnv != nil {
+		docEnv.a.Close()
+		docEnv.b.Close()
+		docEnv.c.Close()
+	}
+}
+
+// ---------------------------------------------------------------------------
+// Routes
+// ---------------------------------------------------------------------------
+
+func (c DocCase) fixed() DocCase {
+	n := len(docFields)
+	for len(c.Vals) < n {
+		c.Vals = append(c.Vals, V{Null: true})
+	}
+	for len(c.Alt) < n {
+		c.Alt = append(c.Alt, zeroAlt(docFields[len(c.Alt)].Kind))
+	}
+	return c
+}
+
+func zeroAlt(kind string) V {
+	if ek, _, isArr := elemKind(kind); isArr {
+		return V{Arr: true, A: []V{zeroOf(ek)}}
+	}
+	switch kind {
+	case "time":
+		return V{S: timePool[0]}
+	case "blob":
+		return V{S: "00"}
+	case "json":
+		return V{S: "1"}
+	case "docid":
+		return V{S: docidPool[0]}
+	}
+	return zeroOf(kind)
+}
+
+func (r Route) order() []int {
+	if isPerm(r.Order, len(docFields)) {
+		return r.Order
+	}
+	out := make([]int, len(docFields))
+	for i := range out {
+		out[i] = i
+	}
+	return out
+}
+
+func (r Route) explicit(i int) bool { return i < len(r.Explicit) && r.Explicit[i] }
+
+func jsonDoc(vals []V, r Route) string {
+	var parts []string
+	for _, i := range r.order() {
+		v := vals[i]
+		if v.Null && !r.explicit(i) {
+			continue
+		}
+		parts = append(parts, fmt.Sprintf("%q:%s", docFields[i].Name, jsonText(docFields[i].Kind, v)))
+	}
+	return "{" + strings.Join(parts, ",") + "}"
+}
+
+func gqlInput(vals []V, r Route) string {
+	var parts []string
+	for _, i := range r.order() {
+		v := vals[i]
+		if v.Null && !r.explicit(i) {
+			continue
+		}
+		parts = append(parts, fmt.Sprintf("%s: %s", docFields[i].Name, gqlText(docFields[i].Kind, v)))
+	}
+	return "{" + strings.Join(parts, ", ") + "}"
+}
+
+func mapDoc(vals []V, r Route) map[string]any {
+	m := map[string]any{}
+	for _, i := range r.order() {
+		v := vals[i]
+		if v.Null && !r.explicit(i) {
+			continue
+		}
+		m[docFields[i].Name] = goValue(docFields[i].Kind, v, r.Typing)
+	}
+	return m
+}
+
+type routeResult struct {
+	name    string
+	id      string
+	commits string // canonical list of (fieldName, cid, height) of the genesis commits, "" when not observed
+	err     string
+}
+
+func commitsOf(ctxNode *hx.Node, ex hx.Execer, id string) string {
+	r := hx.ExecOn(ctxNode.Ctx, ex, fmt.Sprintf(`query { commits(docID: %q) { cid fieldName height links { cid name } } }`, id))
+	if !r.OK() {
+		return "error: " + r.Err() + r.Panic
+	}
+	return strings.Join(hx.SortRows(r.Rows("commits")), "\n")
+}
+
+func runRoute(e *docEnvT, vals []V, r Route) routeResult {
+	res := routeResult{name: r.Kind}
+	switch r.Kind {
+	case "json":
+		d, err := client.NewDocFromJSON([]byte(jsonDoc(vals, r)), e.defA)
+		if err != nil {
+			res.err = err.Error()
+			return res
+		}
+		res.id = d.ID().String()
+	case "map":
+		d, err := client.NewDocFromMap(mapDoc(vals, r), e.defA)
+		if err != nil {
+			res.err = err.Error()
+			return res
+		}
+		res.id = d.ID().String()
+	case "gqlA", "gqlB":
+		n := e.a
+		if r.Kind == "gqlB" {
+			n = e.b
+		}
+		txn, err := n.DB.NewTxn(n.Ctx, false)
+		if err != nil {
+			hx.Harnessf("NewTxn: %v", err)
+		}
+		defer txn.Discard(n.Ctx)
+		q := fmt.Sprintf("mutation { create_Users(input: %s) { _docID } }", gqlInput(vals, r))
+		out := hx.ExecOn(n.Ctx, txn, q)
+		if !out.OK() {
+			res.err = out.Err() + out.Panic
+			return res
+		}
+		rows := out.Rows("create_Users")
+		if len(rows) != 1 {
+			res.err = fmt.Sprintf("create returned %d rows", len(rows))
+			return res
+		}
+		res.id, _ = rows[0]["_docID"].(string)
+		res.commits = commitsOf(n, txn, res.id)
+	case "colB":
+		n := e.b
+		d, err := client.NewDocFromJSON([]byte(jsonDoc(vals, r)), e.defB)
+		if err != nil {
+			res.err = err.Error()
+			return res
+		}
+		txn, err := n.DB.NewTxn(n.Ctx, false)
+		if err != nil {
+			hx.Harnessf("NewTxn: %v", err)
+		}
+		defer txn.Discard(n.Ctx)
+		ctx := db.InitContext(n.Ctx, txn)
+		if err := e.colB.Create(ctx, d); err != nil {
+			res.err = err.Error()
+			return res
+		}
+		out := hx.ExecOn(n.Ctx, txn, `query { Users { _docID } }`)
+		if !out.OK() || len(out.Rows("Users")) != 1 {
+			res.err = fmt.Sprintf("query after create: %s %d rows", out.Err()+out.Panic, len(out.Rows("Users")))
+			return res
+		}
+		res.id, _ = out.Rows("Users")[0]["_docID"].(string)
+		if res.id != d.ID().String() {
+			res.err = fmt.Sprintf("stored _docID %s differs from Document.ID() %s", res.id, d.ID())
+		}
+		res.commits = commitsOf(n, txn, res.id)
+	default:
+		hx.Harnessf("route kind %q", r.Kind)
+	}
+	return res
+}
+
+// ---------------------------------------------------------------------------
+// Oracle
+// ---------------------------------------------------------------------------
+
+type docOutcome struct {
+	failures     []*hx.Failure
+	routes       int
+	gqlSkipped   bool
+	nonNull      int
+	nullSwapped  bool
+	mutatedKind  string
+	mutation     string
+	emptyDoc     bool
+	commitRoutes int
+}
+
+func runDoc(c DocCase) (out docOutcome) {
+	c = c.fixed()
+	e := getDocEnv()
+	fail := func(f *hx.Failure) { out.failures = append(out.failures, f) }
+	if e.rootsDisagree != "" {
+		fail(hx.Failf("C13/doc/schema-ids-differ-between-nodes", "the same two type definitions (other order, two calls) got different ids: %s", e.rootsDisagree))
+		return out
+	}
+	gqlOK := true
+	for i, f := range docFields {
+		if !c.Vals[i].Null {
+			out.nonNull++
+		}
+		if !gqlExpressible(f.Kind, c.Vals[i]) {
+			gqlOK = false
+		}
+	}
+	out.emptyDoc = out.nonNull == 0
+	out.gqlSkipped = !gqlOK
+
+	var results []routeResult
+	var used []Route
+	var storing *Route
+	for _, r := range c.Routes {
+		if !gqlOK && strings.HasPrefix(r.Kind, "gql") {
+			continue
+		}
+		if r.Kind != "json" && r.Kind != "map" {
+			// A field written as null gets a (null) field commit, an omitted one gets none: the routes
+			// whose genesis commits are compared write the same set of nulls (key order still differs).
+			if storing == nil {
+				rr := r
+				storing = &rr
+			} else {
+				r.Explicit = storing.Explicit
+			}
+		}
+		results = append(results, runRoute(e, c.Vals, r))
+		used = append(used, r)
+	}
+	out.routes = len(results)
+	if len(results) == 0 {
+		return out
+	}
+	// null written on one route and omitted on another
+	for i := range docFields {
+		if !c.Vals[i].Null {
+			continue
+		}
+		w, o := false, false
+		for _, r := range used {
+			if r.explicit(i) {
+				w = true
+			} else {
+				o = true
+			}
+		}
+		if w && o {
+			out.nullSwapped = true
+		}
+	}
+	describe := func() string {
+		var sb strings.Builder
+		for i, r := range results {
+			fmt.Fprintf(&sb, "  route %d %-5s id=%s err=%q\n", i, r.name, r.id, r.err)
+		}
+		fmt.Fprintf(&sb, "  json input of route 0: %s\n", jsonDoc(c.Vals, used[0]))
+		return sb.String()
+	}
+	// D0: every route accepts the assignment (an input one route rejects and another accepts is reported, then classified)
+	for _, r := range results {
+		if r.err != "" {
+			fail(hx.Failf("C13/doc/route-error/"+r.name, "route %s failed: %s\n%s", r.name, r.err, describe()))
+			return out
+		}
+	}
+	// D1: all ids equal
+	base := results[0]
+	for k, r := range results[1:] {
+		if r.id != base.id {
+			why := base.name + "-vs-" + r.name
+			if r.name == base.name {
+				// same constructor: key order or null-vs-omitted
+				probe := used[k+1]
+				probe.Explicit = used[0].Explicit
+				p := runRoute(e, c.Vals, probe)
+				if p.id == base.id {
+					why = r.name + "/null-vs-omitted"
+				} else {
+					why = r.name + "/key-order"
+				}
+			}
+			f := hx.Failf("C13/doc/docid-differs/"+why, "the same field values give different document ids:\n%s", describe())
+			if bad := inexactFloatFields(c.Vals); len(bad) > 0 && jsonBased(r.name) != jsonBased(base.name) {
+				// diagnoser: with the fields holding a misparsed float nulled, every route agrees
+				clean := append([]V{}, c.Vals...)
+				for i := range bad {
+					clean[i] = V{Null: true}
+				}
+				agree := true
+				var first string
+				for k2, r2 := range used {
+					rr := runRoute(e, clean, r2)
+					if rr.err != "" || (k2 > 0 && rr.id != first) {
+						agree = false
+					}
+					if k2 == 0 {
+						first = rr.id
+					}
+				}
+				if agree {
+					f.Sig = sigFloatID
+					f.Msg = "NewDocFromJSON parses a float text 1 ulp off (valyala/fastjson), so the JSON route stores another value and derives another id than the map/GraphQL routes. " + f.Msg
+				}
+			}
+			fail(f)
+			return out
+		}
+	}
+	// D2: genesis commits (composite and per field, counters included) are the same blocks on every node and route
+	var firstCommits *routeResult
+	for i := range results {
+		r := &results[i]
+		if r.commits == "" {
+			continue
+		}
+		out.commitRoutes++
+		if strings.HasPrefix(r.commits, "error: ") {
+			fail(hx.Failf("C13/doc/commits-query-error", "route %s: %s", r.name, r.commits))
+			return out
+		}
+		if firstCommits == nil {
+			firstCommits = r
+			continue
+		}
+		if r.commits != firstCommits.commits {
+			if f := diagnoseCommits(base.id, firstCommits, r, jsonDoc(c.Vals, used[0]), c.Vals); f != nil {
+				fail(f)
+				if !rec.IsKnown(f.Sig) {
+					return out
+				}
+			}
+		}
+	}
+
+	// D3: the id depends on every field value and on the schema root
+	plain := Route{Kind: "json"}
+	mi := c.Mut % len(docFields)
+	mvals := append([]V{}, c.Vals...)
+	kind := docFields[mi].Kind
+	var how string
+	if c.Vals[mi].Null {
+		mvals[mi] = c.Alt[mi]
+		if mvals[mi].Null {
+			mvals[mi] = zeroAlt(kind)
+		}
+		how = "null-to-value"
+	} else {
+		mvals[mi], how = mutate(kind, c.Vals[mi], c.MutHow)
+	}
+	out.mutatedKind, out.mutation = kind, how
+	m := runRoute(e, mvals, plain)
+	if m.err != "" {
+		fail(hx.Failf("C13/doc/route-error/json-mutated", "mutated assignment rejected: %s\n input: %s", m.err, jsonDoc(mvals, plain)))
+		return out
+	}
+	if m.id == base.id {
+		sig := fmt.Sprintf("C13/doc/docid-ignores-change/%s/%s", kindClass(kind), how)
+		if _, nillable, isArr := elemKind(kind); isArr && nillable && len(mvals[mi].A) == len(c.Vals[mi].A) && !c.Vals[mi].Null {
+			// diagnoser: an array with nillable elements changed without changing its length
+			sig = sigNillableArr
+		}
+		fail(hx.Failf(sig,
+			"two documents that differ in field %s (%s) have the same id %s:\n  %s\n  %s",
+			docFields[mi].Name, how, base.id, jsonDoc(c.Vals, plain), jsonDoc(mvals, plain)))
+		return out
+	}
+	js := jsonDoc(c.Vals, plain)
+	for _, alt := range []struct {
+		what string
+		def  client.CollectionDefinition
+	}{{"other-type-same-fields", e.defA2}, {"same-type-extra-field", e.defC}} {
+		d, err := client.NewDocFromJSON([]byte(js), alt.def)
+		if err != nil {
+			fail(hx.Failf("C13/doc/route-error/json-other-root", "%s: %v\n input: %s", alt.what, err, js))
+			return out
+		}
+		if d.ID().String() == base.id {
+			fail(hx.Failf("C13/doc/docid-ignores-schema-root/"+alt.what, "document %s has id %s under schema root %s and under root %s", js, base.id, e.defA.Schema.Root, alt.def.Schema.Root))
+			return out
+		}
+	}
+	return out
+}
+
+// jsonBased: the route hands JSON text to NewDocFromJSON.
+func jsonBased(route string) bool { return route == "json" || route == "colB" }
+
+func kindClass(kind string) string {
+	ek, nillable, isArr := elemKind(kind)
+	if !isArr {
+		return kind
+	}
+	if nillable {
+		return "array-of-nillable-" + ek
+	}
+	return "array-of-" + ek
+}
+
+type commitRow struct {
+	Cid       string `json:"cid"`
+	FieldName string `json:"fieldName"`
+	Height    int    `json:"height"`
+	Links     []struct {
+		Cid  string `json:"cid"`
+		Name string `json:"name"`
+	} `json:"links"`
+}
+
+func parseCommits(s string) map[string]commitRow {
+	m := map[string]commitRow{}
+	for _, line := range strings.Split(s, "\n") {
+		var r commitRow
+		if json.Unmarshal([]byte(line), &r) == nil && r.Cid != "" {
+			m[r.FieldName] = r
+		}
+	}
+	return m
+}
+
+const sigHeadsPrefix = "C13/doc/genesis-cid-differs/field-commit-links-heads-of-other-fields"
+
+// diagnoseCommits compares the genesis commits of two routes field by field. A difference is
+// attributed to the known head-prefix defect only if the differing field commit carries links or a
+// height above 1 although the document did not exist before (a genesis field commit has neither),
+// and the composite differs only because of such a child.
+func diagnoseCommits(id string, a, b *routeResult, input string, vals []V) *hx.Failure {
+	inexact := map[string]bool{}
+	if jsonBased(a.name) != jsonBased(b.name) {
+		for i := range inexactFloatFields(vals) {
+			inexact[docFields[i].Name] = true
+		}
+	}
+	floatExplained := []string{}
+	ma, mb := parseCommits(a.commits), parseCommits(b.commits)
+	names := map[string]bool{}
+	for k := range ma {
+		names[k] = true
+	}
+	for k := range mb {
+		names[k] = true
+	}
+	sorted := make([]string, 0, len(names))
+	for k := range names {
+		sorted = append(sorted, k)
+	}
+	sort.Strings(sorted)
+	explained, unexplained := []string{}, []string{}
+	for _, k := range sorted {
+		if k == "_C" {
+			continue
+		}
+		x, okx := ma[k]
+		y, oky := mb[k]
+		if okx && oky && x.Cid == y.Cid {
+			continue
+		}
+		if okx && oky && (x.Height > 1 || y.Height > 1 || len(x.Links) > 0 || len(y.Links) > 0) {
+			explained = append(explained, k)
+		} else if okx && oky && inexact[k] {
+			floatExplained = append(floatExplained, k)
+		} else {
+			unexplained = append(unexplained, k)
+		}
+	}
+	detail := fmt.Sprintf("creating the same document (%s) produced different genesis commits on route %s and route %s:\n%s\n---\n%s\ninput: %s",
+		id, a.name, b.name, a.commits, b.commits, input)
+	if len(unexplained) > 0 {
+		return hx.Failf("C13/doc/genesis-cid-differs/"+fieldClass(unexplained[0]), "field %v: %s", unexplained, detail)
+	}
+	if len(floatExplained) > 0 {
+		return hx.Failf(sigFloatCommit, "the commit of field %v holds a float the JSON route parsed 1 ulp off: %s", floatExplained, detail)
+	}
+	if len(explained) > 0 {
+		return hx.Failf(sigHeadsPrefix, "the genesis commit of field %v has height>1 / links to the commits of other fields, which ones depends on the run: %s", explained, detail)
+	}
+	if ma["_C"].Cid != mb["_C"].Cid {
+		return hx.Failf("C13/doc/genesis-cid-differs/composite", "%s", detail)
+	}
+	return nil
+}
+
+func fieldClass(name string) string {
+	for _, f := range docFields {
+		if f.Name == name {
+			if strings.Contains(f.GQL, "@crdt") {
+				return "counter:" + name
+			}
+			return kindClass(f.Kind)
+		}
+	}
+	return name
+}
